@@ -26,3 +26,47 @@ use crate::runner::PropSpec;
 pub fn registry() -> Vec<PropSpec> {
     vec![c01::SPEC, c02::SPEC, c03::SPEC, c04::SPEC, c05::SPEC, c06::SPEC, c07::SPEC, c08::SPEC, c09::SPEC, c10::SPEC, c11::SPEC, c12::SPEC, c13::SPEC, c14::SPEC, c15::SPEC, c16::SPEC, c17::SPEC, c18::SPEC, c19::SPEC, c20::SPEC]
 }
+
+/// Seed corpus for the libFuzzer layer: the terminator pool and a few repository documents, each
+/// with the prefix bytes the target's `fuzz_entry` expects.
+pub fn write_fuzz_seeds(id: &str, dir: &std::path::Path) {
+    let prefix: &[u8] = match id {
+        "C01" | "C16" => &[1],
+        "C03" | "C07" => &[5, 0],
+        "C02" => &[1, 0, 0],
+        "C11" => &[3],
+        _ => &[],
+    };
+    let mut docs: Vec<Vec<u8>> = crate::gen::TERMINATOR_DOCS.iter().map(|d| d.as_bytes().to_vec()).collect();
+    match id {
+        "C07" => {
+            let mut r = crate::rng::Rng::new(7);
+            for o in crate::family::family() {
+                for _ in 0..3 {
+                    if let Ok(x) = (o.gen.unwrap())(&mut r).ser(&crate::family::SerCfg::plain()) {
+                        docs.push(x.into_bytes());
+                    }
+                }
+            }
+        }
+        "C11" => {
+            docs = ["a='1' b=\"2\"", " a = '1'  a = \"x\" c", "a=1 b c='", "k='v' k=\"w x\" z='3'"].iter().map(|d| d.as_bytes().to_vec()).collect();
+        }
+        "C10" => {
+            docs = ["&lt;&amp;&#65;&#x41;", "a & b", "&#xD800;&#0;&bogus;", "<>&'\""].iter().map(|d| d.as_bytes().to_vec()).collect();
+        }
+        _ => {
+            for (_, data) in crate::gen::load_corpus(2048) {
+                docs.push(data);
+            }
+        }
+    }
+    for (i, d) in docs.iter().enumerate() {
+        let mut v = prefix.to_vec();
+        if id == "C07" {
+            v[0] = (i % 48) as u8;
+        }
+        v.extend_from_slice(d);
+        let _ = std::fs::write(dir.join(format!("seed-{:04}", i)), v);
+    }
+}
